@@ -13,6 +13,7 @@ From KaiV Require Import Proofs.Progress.
 From KaiV Require Model.Reclaim Model.ReclaimSpec.
 From KaiV Require Import Model.ProgressTree Proofs.ProgressTree Proofs.ProgressTreeAction.
 From KaiV Require Import Model.ProgressFaults Proofs.ProgressFaults.
+From KaiV Require Import Model.ReclaimFaults Proofs.ReclaimFaults.
 Import ListNotations.
 Open Scope Z_scope.
 
@@ -487,3 +488,86 @@ Print Assumptions C05_accepted_binds_monotone_refuted.
 Theorem C05_every_pending_accounted_at_api_server_refuted : ~ every_pending_accounted_at_api_server.
 Proof. exact dropped_operations_hold_capacity_proof. Qed.
 Print Assumptions C05_every_pending_accounted_at_api_server_refuted.
+
+(** * Reclaim / preempt progress when the API server refuses evictions
+
+    Model/ReclaimFaults.v: the reclaim and preempt loops with Statement.Commit
+    under a failure oracle [f k v p] (is the k-th Cache.Evict call of the action,
+    asking to evict the pod of running job [v] for preemptor [p], refused?).  A
+    refused Evict un-evicts THAT pod (Statement.commitEvict -> evictOp.Reverse():
+    the pod runs on, its node no longer counts its unit as releasing, it is
+    charged to its queue again), Commit carries on with the remaining
+    operations (further evictions, the nomination of the preemptor) and
+    returns the error; the action logs it and goes on with the next job
+    ([carry_on = true]: reclaim.go / preempt.go as they are). *)
+
+(** C05_reclaim_progress with "one of its own evictions was refused" as the only
+    new escape: for all oracles of the solver AND ALL EVICT-FAILURE ORACLES, a
+    pending job that - in the state in which it is popped, i.e. with the victims
+    the jobs served before it left - passes CanReclaimResources, is not skipped
+    by the signature shortcut and has a good scenario among its victims, is
+    nominated by the action (TaskPipelined), and its statement holds an accepted
+    eviction unless an eviction requested FOR THIS JOB was refused.  What the API
+    server refused to other jobs, earlier or later, is no escape. *)
+Theorem C05_reclaim_progress_under_evict_faults : reclaim_progress_under_evict_faults true.
+Proof. exact reclaim_progress_under_evict_faults_proof. Qed.
+Print Assumptions C05_reclaim_progress_under_evict_faults.
+
+(** the same for preempt *)
+Theorem C05_preempt_progress_under_evict_faults :
+  forall vfilter sfilter valid ahead use_sigs pending np_gate f st0 before p after pre v post,
+    let s := fold_left (preempt_step_f vfilter sfilter valid ahead use_sigs pending np_gate true f) before (rf_init st0) in
+    np_gate (rf_st s) p = true -> skipped use_sigs pending (rf_reps s) p = false ->
+    preempt_victims vfilter (rf_st s) p = pre ++ v :: post ->
+    scenario_good sfilter valid ahead (rf_st s) p (pre ++ [v]) v ->
+    let fin := preempt_action_f vfilter sfilter valid ahead use_sigs pending np_gate true f st0 (before ++ p :: after) in
+    exists cm, In cm (vs_log (rf_st fin)) /\ cm_job cm = pj_id p
+               /\ nominated (rf_calls fin) (pj_id p) = true
+               /\ (cm_evicted cm <> [] \/ evict_refused_for (rf_calls fin) (pj_id p) = true).
+Proof. exact preempt_action_f_progress. Qed.
+Print Assumptions C05_preempt_progress_under_evict_faults.
+
+(** It does NOT hold for the loop that leaves Execute when a commit returned an
+    error ([carry_on = false]; not the code).  Witness (the world of
+    seeded/C05-5's README): two 1-GPU nodes used by preemptible pods 10 / 11 of
+    queue 3 (deserved 0), queues 1 and 2 with one pending job each (1, 2), the
+    first Evict refused: job 1 is nominated, job 2 is never attempted although
+    pod 11 runs on and every later eviction would be accepted. *)
+Theorem C05_stop_at_first_failed_reclaim_commit_refuted : ~ reclaim_progress_under_evict_faults false.
+Proof. exact stop_at_first_failed_reclaim_commit_refuted_proof. Qed.
+Print Assumptions C05_stop_at_first_failed_reclaim_commit_refuted.
+
+(** Non-vacuity on the same world with the loop as it is: the refused victim
+    runs on (its node keeps the nomination of job 1 and counts -1 releasing), job
+    2 evicts the other pod and is nominated, none of ITS evictions was refused;
+    the loop that stops issues the first two calls only. *)
+Theorem C05_evict_faults_nonvacuous :
+  (rf_calls (e_run true) = [EEvictRefused 10 1; EPipe 1 2; EEvict 11 2; EPipe 2 1]
+   /\ vs_running (rf_st (e_run true)) = [mkRJ 10 3 50 true 2]
+   /\ vs_nodes (rf_st (e_run true)) = [mkSN 1 0 0; mkSN 2 0 (-1)]
+   /\ vs_log (rf_st (e_run true)) = [mkCommit 2 [11%positive] 1; mkCommit 1 [] 2]
+   /\ evict_refused_for (rf_calls (e_run true)) 2 = false)
+  /\ (rf_calls (e_run false) = [EEvictRefused 10 1; EPipe 1 2]
+      /\ vs_running (rf_st (e_run false)) = [mkRJ 10 3 50 true 2; mkRJ 11 3 50 true 1]
+      /\ nominated (rf_calls (e_run false)) 2 = false).
+Proof. split; [exact e_carry_on|exact e_stop]. Qed.
+Print Assumptions C05_evict_faults_nonvacuous.
+
+(** A refused eviction is an escape only for the job it was requested for: the
+    Cache calls the step of job [p] adds never count as a refusal for another
+    job [q], under any oracle and either loop variant. *)
+Theorem C05_refused_evictions_excuse_only_their_preemptor :
+  forall vfilter sfilter valid ahead use_sigs pending can_reclaim carry_on f s p q,
+    pj_id p <> q ->
+    evict_refused_for (rf_calls (reclaim_step_f vfilter sfilter valid ahead use_sigs pending can_reclaim carry_on f s p)) q
+    = evict_refused_for (rf_calls s) q.
+Proof. exact (fun vf sf va ah us pe cr co f => reclaim_step_f_refusals_are_own vf sf va ah us pe cr f co). Qed.
+Print Assumptions C05_refused_evictions_excuse_only_their_preemptor.
+
+(** ... and the faulty loop is the loop of C05_reclaim_progress when nothing is refused. *)
+Theorem C05_no_evict_faults_is_the_fault_free_reclaim :
+  forall vfilter sfilter valid ahead use_sigs pending can_reclaim carry_on st0 ps,
+    let fin := reclaim_action_f vfilter sfilter valid ahead use_sigs pending can_reclaim carry_on no_evict_faults st0 ps in
+    (rf_st fin, rf_reps fin) = reclaim_action vfilter sfilter valid ahead use_sigs pending can_reclaim st0 ps.
+Proof. exact no_evict_faults_fault_free. Qed.
+Print Assumptions C05_no_evict_faults_is_the_fault_free_reclaim.
